@@ -41,7 +41,7 @@ def run(ctx):
                 "longest job, 10% equal to it, else slack 0-3 with <=14 qubits) x ALL bitstrings for <=10 qubits (96 sampled above); "
                 "distinct = distinct (instance, limit); non-trivial = limit accepted and at least one qubit, or limit rejected")
     batch = je.Batch()
-    cases = load_corpus("C15") + [gen_case(ctx.rng, ctx.quick) for _ in range(ctx.n(700, 6000))]
+    cases = load_corpus("C15") + [gen_case(ctx.rng, ctx.quick) for _ in range(ctx.n(450, 6000))]
     if not ctx.quick:
         cases += [{"kind": "c15", "inst": inst, "L": L, "P": dict(je.DEFAULT_P), "shape": "small-scope"} for inst, L in je.small_scope()]
         ctx.notes["exhaustive_small_scope"] = "all instances with <= 2 jobs x <= 2 operations on 2 machines, durations <= 2, slack 0..2 (468 cases), all bitstrings up to 10 qubits"
